@@ -1,25 +1,22 @@
 #!/bin/bash
-# tools/seedtest.sh <PROPERTY> [<seed dir>] [--tier quick|thorough]
-# Confirms a seeded change (patch.diff + demonstration) in a scratch worktree of /repo and runs the
-# property's check against it.  Nothing is applied to /repo itself.
+# tools/seedtest.sh <PROPERTY> <seed dir> <demo dest dir (relative to repo)> '<demo go test cmd>' [tier] [extra props...]
+# Confirms a seeded change in a scratch worktree of /repo (demo passes without, fails with the patch) and runs the
+# property's check against the patched tree.  Nothing is applied to /repo itself.
 set -u
-P=$1; DIR=${2:-/tmp/seed-out/$P}; TIER=${4:-quick}
+P=$1; DIR=$2; DEST=$3; CMD=$4; TIER=${5:-quick}
 export GOFLAGS=-mod=mod GOPROXY=off GOSUMDB=off GOTOOLCHAIN=local
 W=/tmp/confirm-$P-$$
 git -C /repo worktree add -q --detach $W HEAD || exit 2
-trap 'git -C /repo worktree remove --force $W' EXIT
-cd $W
-DEMO_PATH=$(sed -n 's/^PATH: *//p' $DIR/demo.txt | head -1)
-DEMO_CMD=$(sed -n 's/^CMD: *//p' $DIR/demo.txt | head -1)
-echo "== demo: $DEMO_CMD (file -> $DEMO_PATH)"
-for f in $DIR/*_test.go; do [ -f "$f" ] && cp "$f" "$W/$DEMO_PATH/"; done
-echo "== without patch:"; (cd $W && timeout 300 bash -c "$DEMO_CMD" 2>&1 | tail -3)
+trap 'git -C /repo worktree remove --force $W; cd /verif && ./.build/extract -repo /repo -out lean/SA/Gen >/dev/null' EXIT
+cd $W; mkdir -p $W/$DEST
+for f in $DIR/*_test.go; do cp "$f" "$W/$DEST/"; done
+echo "== demo WITHOUT patch:"; (timeout 300 bash -c "$CMD" 2>&1 | grep -E "^(ok|FAIL|---|PASS|panic)" | head -8)
 git apply $DIR/patch.diff || { echo "patch does not apply"; exit 2; }
 echo "== build with patch:"; go build ./... && echo ok
-echo "== with patch:"; (cd $W && timeout 300 bash -c "$DEMO_CMD" 2>&1 | tail -3)
-rm -f $W/$DEMO_PATH/zz_seed*_test.go
-for f in $DIR/*_test.go; do rm -f "$W/$DEMO_PATH/$(basename $f)"; done
-echo "== check $P against the patched tree:"
-cd /verif && VERIF_REPO=$W ./check $P --tier $TIER 2>&1 | grep -v "^KNOWN" | tail -6 | cut -c1-700
-echo "== restoring Gen facts from /repo"
-cd /verif && ./.build/extract -repo /repo -out lean/SA/Gen >/dev/null
+echo "== demo WITH patch:"; (timeout 300 bash -c "$CMD" 2>&1 | grep -E "^(ok|FAIL|---|PASS|panic)" | head -8)
+for f in $DIR/*_test.go; do rm -f "$W/$DEST/$(basename $f)"; done
+if [ $# -ge 5 ]; then shift 5; else shift $#; fi
+for Q in $P "$@"; do
+  echo "== check $Q ($TIER) against the patched tree:"
+  (cd /verif && VERIF_REPO=$W ./check $Q --tier $TIER 2>&1 | grep -v "^KNOWN" | tail -5 | cut -c1-800)
+done
